@@ -88,7 +88,7 @@ void ezc3d::ParametersNS::GroupNS::Parameter::write(std::fstream &f, int groupId
                 writeImbricatedParameter(f, _dimension, 1);
             }
         } else {
-            if (!_name.compare("DATA_START")){
+            if (!_name.compare("DATA_START") && _data_type == DATA_TYPE::INT && hasSize == 1){
                 // This is a special case defined in the standard where you write the number of blocks up to the data
                 dataStartPosition = f.tellg();
                 f.write(reinterpret_cast<const char*>(&blank), 2*ezc3d::DATA_TYPE::BYTE);
